@@ -73,7 +73,7 @@ impl Event {
                     a.push(checksum_v);
                     continue;
                 } else {
-                    checksum += n;
+                    checksum = checksum.wrapping_add(n);
                 }
             }
             if n == -1 {
@@ -718,7 +718,7 @@ impl Song {
     pub fn calc_rand_value(&mut self, val: isize, rand_v: isize) -> isize {
         let r = self.rand();
         let r = (r as isize) % rand_v - (rand_v / 2);
-        val + r
+        val.wrapping_add(r)
     }
     pub fn rand(&mut self) -> u32 {
         let mut y = self.rand_seed;
